@@ -81,11 +81,35 @@ def c10step (_ : Unit) (op : String) (impl : String) : Unit × String :=
         | _, _ => ("bad-op", "na")
     | ["member", lo, hi, v] => match parse64 lo, parse64 hi, parse64 v with
         | some l, some h, some x =>
-            let m := match rangeMatches 20000 l h x with | some b => toString b | none => "diverges"
+            let m := match rangeMatches 2000000 l h x with | some b => toString b | none => "diverges"
             let want := decide (sInt l ≤ sInt x ∧ sInt x ≤ sInt h)
-            (m, if impl == "diverges" then "bad:range-enumeration-exceeds-20000-steps"
+            (m, if impl == "diverges" then "bad:range-enumeration-exceeds-2000000-steps"
                 else if impl == toString want then "ok" else s!"bad:range-exactness expected {want}")
         | _, _, _ => ("bad-op", "na")
+    | ["inc", x] => match hexToBytes x with
+        | some bs => (both (G.resBytes (BlugeGen.C10.incrementBytes bs)) (bytesToHex (incBytes bs)), "ok")
+        | none => ("bad-op", "na")
+    | ["rangeq", mn, mx, im, iM, vs] => match parse64 mn, parse64 mx with
+        | some a, some b =>
+            let incMin := im == "true"; let incMax := iM == "true"
+            let vals := (vs.splitOn ",").filterMap parse64
+            match BlugeGen.C10.numericRangeBounds a b incMin incMax 0#64 with
+            | .ok (lo, hi) =>
+                -- model: the translated end-point handling, then the reference decomposition per value
+                let ms := vals.map fun v => rangeMatches 2000000 lo hi (f2i v)
+                let m := if ms.any (·.isNone) then "diverges" else String.ofList (ms.map fun o => if o == some true then '1' else '0')
+                -- specification: total order on floats via f2i; an infinite end is an open end
+                let negInf : I64 := 0xfff0000000000000#64
+                let posInf : I64 := 0x7ff0000000000000#64
+                let want := String.ofList (vals.map fun v =>
+                  let x := (f2i v).toInt
+                  let okLo := a == negInf || (if incMin then (f2i a).toInt ≤ x else (f2i a).toInt < x)
+                  let okHi := b == posInf || (if incMax then x ≤ (f2i b).toInt else x < (f2i b).toInt)
+                  if okLo && okHi then '1' else '0')
+                (m, if impl == "diverges" then "bad:range-enumeration-exceeds-2000000-steps"
+                    else if impl == want then "ok" else s!"bad:range-query-exactness expected {want}")
+            | _ => ("panic", "na")
+        | _, _ => ("bad-op", "na")
     | ["il", a, b] => match parse64 a, parse64 b with
         | some x, some y => (both (hex64 (BlugeGen.C10.Interleave x y)) (hex64 (interleave x y)), "ok")
         | _, _ => ("bad-op", "na")
